@@ -210,8 +210,29 @@ def D9():
         c.close(); shutil.rmtree(d); shutil.rmtree(dest)
 
 
+def D11():
+    """repack through a handle with a stale index snapshot deletes a pack that another handle has filled."""
+    d, c = fresh()
+    try:
+        a = Container(d)
+        a.count_objects()                       # pins a's snapshot (empty index)
+        keys = c.add_objects_to_pack([b'one', b'two'])
+        a.repack()
+        a.close()
+        f = Container(d)
+        try:
+            ok = [f.get_object_content(k) for k in keys] == [b'one', b'two']
+            msg = 'read back ok'
+        except Exception as e:
+            ok, msg = False, f'{type(e).__name__}'
+        f.close()
+        return not ok, f'after repack through the stale handle: {msg}; pack files: {sorted(os.listdir(os.path.join(d, "packs")))}'
+    finally:
+        c.close(); shutil.rmtree(d)
+
+
 if __name__ == '__main__':
-    which = sys.argv[1:] or ['D1', 'D2', 'D3', 'D4', 'D5', 'D6', 'D7', 'D8', 'D9']
+    which = sys.argv[1:] or ['D1', 'D2', 'D3', 'D4', 'D5', 'D6', 'D7', 'D8', 'D9', 'D11']
     present = 0
     for name in which:
         bad, msg = globals()[name]()
